@@ -409,18 +409,25 @@ func nativeReplay(rel string, cases []replayCase, race bool) ([]string, error) {
 				}
 			}
 		}
+		crashOutcome := func() string {
+			if strings.Contains(out.String(), "DATA RACE") {
+				return "race :: DATA RACE reported by the race detector"
+			}
+			return "crash :: " + firstLine(tail(out.String(), 2000))
+		}
 		if last < start {
-			// no progress: build failure or crash before the first result
-			return outcomes, fmt.Errorf("native replay made no progress (err=%v):\n%s", runErr, tail(out.String(), 4000))
+			// no result line at all: the process died on case 'start' (the binary was built before)
+			if runErr == nil {
+				return outcomes, fmt.Errorf("native replay made no progress:\n%s", tail(out.String(), 4000))
+			}
+			outcomes[start] = crashOutcome()
+			start++
+			continue
 		}
 		start = last + 1
 		if runErr != nil && start < len(cases) && !strings.HasPrefix(outcomes[last], "timeout") {
-			// the process died (fatal error such as stack overflow) on case 'start'
-			if strings.Contains(out.String(), "DATA RACE") {
-				outcomes[start] = "race :: DATA RACE reported by the race detector"
-			} else {
-				outcomes[start] = "crash :: " + firstLine(tail(out.String(), 2000))
-			}
+			// the process died (fatal error, race report with halt_on_error) on case 'start'
+			outcomes[start] = crashOutcome()
 			start++
 		}
 	}
